@@ -283,7 +283,7 @@ theorem hash_words_none (t : GTerm) (ht : GTerm.WF t) (X : List Char) :
 /-- what follows an atomic formula: a general term and an atom may end here, and the guard loop
     finds no further guard -/
 def AtomicFollow (rest : List Char) : Prop :=
-  GFollow rest ∧ AtomFollowF rest ∧ ∀ f, guardsL f rest = ([], rest)
+  GFollow rest ∧ AtomFollowF rest ∧ (∀ f, guardsL f rest = ([], rest)) ∧ lexVariable (skip rest) = none
 
 theorem guardsL_paren_open (f : Nat) (X : List Char) : guardsL f ('(' :: X) = ([], '(' :: X) := by
   cases f with
@@ -296,7 +296,7 @@ theorem gfollow_paren_open (X : List Char) : GFollow ('(' :: X) :=
 
 theorem atomicL_printL (a : AtomicF) (ha : AtomicF.WF a) (rest : List Char) (hr : AtomicFollow rest) :
     atomicL (AtomicF.printL a ++ rest) = some (a, rest) := by
-  obtain ⟨hg, haf, hstop⟩ := hr
+  obtain ⟨hg, haf, hstop, _⟩ := hr
   cases a with
   | tru => simp [AtomicF.printL, atomicL, stripPrefix]
   | fls => simp [AtomicF.printL, atomicL, stripPrefix]
